@@ -25,12 +25,24 @@ pub struct StorageHandle<Db> {
 impl<Db> Clone for StorageHandle<Db> {
     fn clone(&self) -> Self {
         *self.coordinate.clones.lock() += 1;
+        #[cfg(salsa_rs_salsa_verif)]
+        crate::verif_conc::emit(crate::verif_conc::Ev::CloneBegin);
+        #[cfg(salsa_rs_salsa_verif)]
+        let _verif_clone_end = crate::verif_conc::EmitOnDrop(crate::verif_conc::Ev::CloneEnd);
 
         Self {
             zalsa_impl: self.zalsa_impl.clone(),
             coordinate: CoordinateDrop(Arc::clone(&self.coordinate)),
             phantom: PhantomData,
         }
+    }
+}
+
+#[cfg(salsa_rs_salsa_verif)]
+impl<Db> Drop for StorageHandle<Db> {
+    fn drop(&mut self) {
+        // Reported before the fields are dropped (`zalsa_impl` first, then `coordinate`).
+        crate::verif_conc::emit(crate::verif_conc::Ev::DropBegin);
     }
 }
 
@@ -166,6 +178,8 @@ impl<Db: Database> Storage<Db> {
         );
         {
             let _cancellation_flag = CancellationFlagGuard::new(&self.handle.zalsa_impl);
+            #[cfg(salsa_rs_salsa_verif)]
+            crate::verif_conc::emit(crate::verif_conc::Ev::SetFlag);
 
             self.handle
                 .zalsa_impl
@@ -175,7 +189,11 @@ impl<Db: Database> Storage<Db> {
             while *clones != 1 {
                 clones = self.handle.coordinate.cvar.wait(clones);
             }
+            #[cfg(salsa_rs_salsa_verif)]
+            crate::verif_conc::emit_locked(crate::verif_conc::Ev::Waited { clones: *clones });
         }
+        #[cfg(salsa_rs_salsa_verif)]
+        crate::verif_conc::emit(crate::verif_conc::Ev::ClearFlag);
 
         // The ref count on the `Arc` should now be 1
         let zalsa = Arc::get_mut(&mut self.handle.zalsa_impl).unwrap();
@@ -186,6 +204,12 @@ impl<Db: Database> Storage<Db> {
         if overflow {
             zalsa.new_revision();
         }
+        #[cfg(salsa_rs_salsa_verif)]
+        crate::verif_conc::emit(crate::verif_conc::Ev::Bump {
+            overflow,
+            count: zalsa.runtime().cancellation_count(),
+            rev: zalsa.current_revision().as_usize(),
+        });
         zalsa
     }
     // ANCHOR_END: cancel_other_workers
@@ -277,6 +301,10 @@ impl std::ops::Deref for CoordinateDrop {
 
 impl Drop for CoordinateDrop {
     fn drop(&mut self) {
+        // Reported before the decrement: a writer can only leave its wait after the decrement,
+        // so the trace never shows the wait ending before the drop that enabled it.
+        #[cfg(salsa_rs_salsa_verif)]
+        crate::verif_conc::emit(crate::verif_conc::Ev::DropCoord);
         *self.0.clones.lock() -= 1;
         self.0.cvar.notify_all();
     }
